@@ -102,47 +102,101 @@ def f32(x):
 # --------------------------------------------------------------------------
 # positions
 # --------------------------------------------------------------------------
-def pos_code(p):
+def snap(p):
+    """independent deep structural snapshot of a Position: nested tuples of ints, shares nothing with the object"""
+    return (int(p.size), tuple((int(c.stones), int(c.caps)) for c in p.stones), int(p.ply),
+            tuple(tuple((int(pc.color.value), int(pc.kind.value)) for pc in sq) for sq in p.board))
+
+
+def rebuild(s):
+    """a Position made of fresh lists from a snapshot (the harness never applies move() to the search's own objects)"""
+    import tak
+    size, stones, ply, board = s
+    return tak.Position(size=size, ply=ply, stones=tuple(tak.StoneCounts(stones=a, caps=b) for a, b in stones),
+                        board=[[tak.Piece.cached(tak.Color(c), tak.Kind(k)) for c, k in sq] for sq in board])
+
+
+def as_snap(x):
+    return x if isinstance(x, tuple) else snap(x)
+
+
+def snap_code(s):
+    size, stones, ply, board = s
     digits = []
-    for sq in p.board:
-        digits += [3 * pc.color.value + pc.kind.value + 1 for pc in sq] + [0]
+    for sq in board:
+        digits += [3 * c + k + 1 for c, k in sq] + [0]
     val = 0
     for d in reversed(digits):
         val = d + 7 * val
-    s = p.stones
-    return [p.size, s[0].stones, s[0].caps, s[1].stones, s[1].caps, p.ply, val]
+    return [size, stones[0][0], stones[0][1], stones[1][0], stones[1][1], ply, val]
+
+
+def pos_code(p):
+    return snap_code(as_snap(p))
+
+
+def j_snap(s):
+    return takio.j_pos(rebuild(s))
 
 
 _legal_cache = {}
+MUTATING = {}       # snapshot -> ids of moves whose application modified the position they were applied to
 
 
 def legal_ids(pos):
-    """{id: child position} over the id table of the position's size (the implementation's own rules)"""
+    """{id: snapshot of the child} over the id table of the size, by the implementation's own rules, computed on a
+    private copy rebuilt from a snapshot.  If applying the moves changes the copy (Position.move must not), the set
+    is recomputed with a fresh copy per move and the offending ids are remembered in MUTATING."""
     import tak
     from tak.model import encoding
-    key = tuple(pos_code(pos))
-    r = _legal_cache.get(key)
+    s = as_snap(pos)
+    r = _legal_cache.get(s)
     if r is None:
+        size = s[0]
+        n = encoding.n_moves_for_size(size)
+        fresh = rebuild(s)
         r = {}
-        for i in range(encoding.n_moves_for_size(pos.size)):
+        for i in range(n):
             try:
-                r[i] = pos.move(encoding.decode_move(pos.size, i))
+                r[i] = snap(fresh.move(encoding.decode_move(size, i)))
             except tak.IllegalMove:
                 pass
+        if snap(fresh) != s:
+            r, culprits = {}, []
+            for i in range(n):
+                f = rebuild(s)
+                try:
+                    r[i] = snap(f.move(encoding.decode_move(size, i)))
+                except tak.IllegalMove:
+                    pass
+                if snap(f) != s:
+                    culprits.append((i, snap(f)))
+            MUTATING[s] = culprits
         if len(_legal_cache) > 20000:
             _legal_cache.clear()
-        _legal_cache[key] = r
+        _legal_cache[s] = r
     return r
 
 
+_outcome_cache = {}
+
+
 def outcome(pos):
-    """None if play goes on, else +1/-1/0 for the side to move"""
-    w, why = pos.winner()
-    if why is None:
-        return None
-    if w is None:
-        return 0
-    return 1 if w == pos.to_move() else -1
+    """None if play goes on, else +1/-1/0 for the side to move (on a private copy)"""
+    sn = as_snap(pos)
+    if sn not in _outcome_cache:
+        p = rebuild(sn)
+        w, why = p.winner()
+        if why is None:
+            o = None
+        elif w is None:
+            o = 0
+        else:
+            o = 1 if w == p.to_move() else -1
+        if len(_outcome_cache) > 50000:
+            _outcome_cache.clear()
+        _outcome_cache[sn] = o
+    return _outcome_cache[sn]
 
 
 # --------------------------------------------------------------------------
